@@ -23,8 +23,12 @@ if os.path.exists(dp):
             cid, rc = line[3:].split(" rc=")
             cur = {"check": "./check %s --tier quick" % cid, "exit": int(rc), "lines": []}
             det.append(cur)
-        elif cur is not None and len(cur["lines"]) < 6:
-            cur["lines"].append(line[:300])
+        elif cur is not None:
+            cur.setdefault("all", []).append(line[:300])
+    for d in det:
+        al = d.pop("all", [])
+        d["violation_lines"] = sum(1 for l in al if l.startswith("VIOLATION"))
+        d["lines"] = [l for l in al if not l.startswith("VIOLATION") and not l.startswith("KNOWN-FINDING")][:4] + [l for l in al if l.startswith("VIOLATION")][:3]
 out = {
     "property": P,
     "seed": "%s-%s" % (P, N),
@@ -33,7 +37,9 @@ out = {
     "files_changed": meta.get("files_changed"),
     "author": "fresh sub-agent given only the property text and a scratch worktree of /repo",
     "demo": {"file": "demo.rs (drop into tests/ as demo_%s_%s.rs)" % (P, N),
-             "cmd": "cargo test --offline --features verif --test demo_%s_%s" % (P, N)},
+             "cmd": "cargo test --offline --features verif --test demo_%s_%s" % (P, N),
+             "author_cmd": meta.get("demo_cmd"),
+             "note": "C06-2 was run with --no-default-features --features serde (pure-Rust backend); C18-1/2 with the author's two-backend command" if P in ("C06", "C18") else None},
     "confirmed_by_me": {
         "where": "scratch worktree /tmp/mut/%s at the pinned /repo HEAD (removed afterwards)" % P,
         "ran": ["git apply patch.diff", "cargo build --offline", "cargo build --offline --no-default-features --features serde",
@@ -42,8 +48,9 @@ out = {
         "suite_rc_with_change": conf["suite_rc"], "suite_with_change": conf["suite"],
         "demo_with_change_rc": conf["demo_with_change_rc"], "demo_with_change": conf["demo_with_change"],
         "demo_without_change_rc": conf["demo_without_change_rc"], "demo_without_change": conf["demo_without_change"]},
+    "history": json.load(open("/verif/work/seed_notes.json")).get("%s-%s" % (P, N)) if os.path.exists("/verif/work/seed_notes.json") else None,
     "detection": det,
-    "detected": any(d["exit"] == 1 and any("VIOLATION" in l for l in d["lines"]) for d in det),
+    "detected": any(d["exit"] == 1 and d["violation_lines"] > 0 for d in det),
 }
 json.dump(out, open(D + "/meta.json", "w"), indent=1)
 print(D, "detected" if out["detected"] else "NOT DETECTED")
